@@ -30,6 +30,49 @@ pub fn run(out: &mut Out, _seed: u64, _thorough: bool) {
         }
         out.count_n(&format!("fn{}", f), 256 * 256 * 2);
     }
+    // the ALU is a FUNCTION of its inputs: the same point gives the same result whatever was evaluated before it.
+    // Second pass in another order: every point is evaluated right after a neighbour that differs in exactly one of
+    // carry-in / A / B / function, and once more after that neighbour's neighbour; all against the first pass.
+    {
+        let packed = |f: u8, a: u8, b: u8, c: bool| -> u32 {
+            let o = AluOutput::from_input(&AluInput::new(a, b, c), &sel(f));
+            (o.output() as u32) | (o.carry_out() as u32) << 8 | (o.zero_out() as u32) << 9 | (o.negative_out() as u32) << 10
+        };
+        let idx = |f: u8, a: u8, b: u8, c: bool| ((f as usize) << 17) | ((a as usize) << 9) | ((b as usize) << 1) | c as usize;
+        let mut table = vec![0u32; 16 << 17];
+        for f in 0..16u8 {
+            for c in [false, true] {
+                for b in 0..=255u8 {
+                    for a in 0..=255u8 {
+                        table[idx(f, a, b, c)] = packed(f, a, b, c);
+                    }
+                }
+            }
+        }
+        let mut rng = crate::rng::Rng::new(_seed ^ 0xA1B2);
+        let n = if _thorough { 3_000_000 } else { 600_000 };
+        let mut bad: Vec<String> = vec![String::new(); 16];
+        for i in 0..n {
+            let (f, a, b, c) = ((i % 16) as u8, rng.byte(), rng.byte(), rng.chance(1, 2));
+            let (f2, a2, b2, c2) = match rng.below(4) {
+                0 => (f, a, b, !c),
+                1 => (f, a ^ (1 << rng.below(8)), b, c),
+                2 => (f, a, b ^ (1 << rng.below(8)), c),
+                _ => ((f + 1 + rng.below(15) as u8) % 16, a, b, c),
+            };
+            let seq = [(f, a, b, c), (f2, a2, b2, c2), (f, a, b, c), (f2, a2, b2, !c2), (f2, a2, b2, c2)];
+            for (k, (pf, pa, pb, pc)) in seq.iter().enumerate() {
+                let r = packed(*pf, *pa, *pb, *pc);
+                if r != table[idx(*pf, *pa, *pb, *pc)] && bad[*pf as usize].is_empty() {
+                    bad[*pf as usize] = format!("differs fn={} a={} b={} c={} as evaluation {} of the sequence {:?}", pf, pa, pb, *pc as u8, k, seq);
+                }
+            }
+        }
+        for f in 0..16u8 {
+            out.emit(&format!("spec.alupure {}", f), &(if bad[f as usize].is_empty() { "pure".to_string() } else { bad[f as usize].clone() }));
+        }
+        out.notes.insert("purity".into(), format!("{} evaluation sequences of five points (neighbours in carry-in / A / B / function) against a first pass in another order", n));
+    }
     out.sample("alu2 5 200 100 -> ".to_string() + &format!("{} | {}", alu(5, 200, 100, false), alu(5, 200, 100, true)));
     out.notes.insert("exhaustive".into(), "16 functions x 256 x 256 x 2 carry-in = 2097152 points".into());
 }
